@@ -123,6 +123,8 @@ func (l *LRUCache) Len() int {
 }
 
 func (l *LRUCache) Dump() string {
+	l.rwMu.RLock()
+	defer l.rwMu.RUnlock()
 	verifLRU(l, "Dump")
 	head := l.list.Front()
 	buf := newStrBuf()
